@@ -21,8 +21,8 @@ Definition proj09 (s : ostate) : rview :=
   mkRV (flat_map (fun a => map (fun r => mkRA (ap_id a) (oa_key r) (oa_allocated r) (oa_reqnode r)) (ap_requests a)) (s_apps s))
        (map on_id (s_nodes s))
        (map ap_id (s_apps s))
-       (flat_map (fun a => map (fun p => (ap_id a, (snd p, fst p))) (ap_reservations a)) (s_apps s ++ s_completed s))
-       (flat_map (fun n => map (fun p => (on_id n, (snd p, fst p))) (on_reservations n)) (s_nodes s))
+       (flat_map (fun a => map (fun p => mkR (ap_id a) (snd p) (fst p)) (ap_reservations a)) (s_apps s ++ s_completed s))
+       (flat_map (fun n => map (fun p => mkR (fst p) (snd p) (on_id n)) (on_reservations n)) (s_nodes s))
        (flat_map q_reserved (s_queues s))
        (s_nres s).
 
@@ -69,7 +69,7 @@ Definition c09_given_away (reswait : bool) (pre : ostate) (st : ostep) : list N 
     let '(a, (k, n)) := b in
     if reserved_for_other v n a k then
       if ask_req v a k =? n then []
-      else if reswait && forallb (fun e => negb (mem3 (n, e) (rv_node v'))) (node_entries v n) then []
+      else if reswait && forallb (fun e => negb (memR e (rv_node v'))) (node_entries v n) then []
       else [907]
     else []) (sched_bindings st).
 
